@@ -171,16 +171,23 @@ def run_m_units(pid, tier, units, seed, ev, outcome):
             # translator validation: every concrete case must give the same result natively and through the encoding
             mism, agree = [], 0
             for i, c in enumerate(r.get("cases", [])):
-                nat = native_exec(ck_replay_text(c["case"]), os.path.join(CACHE, "val_%s_%d.txt" % (pid, i)), ("kicks2",))
-                e = c["encoding"]
-                if e.get("error") or nat.get("error"):
-                    mism.append({"case": c["case"], "encoding": e, "native": nat})
-                    continue
-                same = (e["result"] == nat["result"]) and (e["slots"] == nat["slots"]) and (e["n"] == nat["n"])
+                cs, e = c["case"], c["encoding"]
+                vpath = os.path.join(CACHE, "val_%s_%d.txt" % (pid, i))
+                if u["model"] == "cuckoo":
+                    nat = native_exec(ck_replay_text(cs), vpath, ("kicks2",))
+                    same = (not e.get("error")) and (not nat.get("error")) and (e["result"] == nat["result"]) and (e["slots"] == nat["slots"]) and (e["n"] == nat["n"])
+                elif u["model"] == "lossy":
+                    nat = native_exec("\n".join(["exec lossy", "width %d" % cs["width"], "n %d" % cs["n"], "op add", "y %d" % cs["y"],
+                                                 "known " + ",".join("%d:%d:%d" % tuple(x) for x in cs["known"])]) + "\n", vpath)
+                    same = (not e.get("error")) and (not nat.get("error")) and (e["result"] == nat["result"]) and (e.get("n") == nat.get("n")) and (e.get("known") == nat.get("known"))
+                else:
+                    nat = native_exec("\n".join(["exec heap", "k %d" % cs["k"], "c %d" % cs["c"], "op add", "y %d" % cs["y"],
+                                                 "map " + ",".join("%d:%d" % tuple(x) for x in cs["map"]), "tree " + ",".join("%d:%d" % tuple(x) for x in cs["tree"])]) + "\n", vpath)
+                    same = (not e.get("error")) and (not nat.get("error")) and (e["result"] == nat["result"]) and (e.get("map") == nat.get("map")) and (e.get("tree") == sorted(nat.get("tree", [])))
                 if same:
                     agree += 1
                 else:
-                    mism.append({"case": c["case"], "encoding": e, "native": nat})
+                    mism.append({"case": cs, "encoding": e, "native": nat})
             r["witnesses"] = {"cases_agree": agree}
             r["translator_validation"] = {"cases": len(r.get("cases", [])), "agree": agree, "mismatches": mism[:3]}
             if mism:
